@@ -1,6 +1,6 @@
 """C16 part: the deliberate panic!s of ast.rs (repeat propagation), reached through the whole derive executed from MIR
 (crate parsers + from_syn; syn token primitives modelled)."""
-import itertools
+import itertools, re
 import z3
 import z3
 from engine import Ref, Cell, Panic
@@ -107,7 +107,8 @@ def parse_layer_panics(ctx):
         if out[0] == 'panic' and n['status'] == 'panic':
             msg = str(n['msg'])
             site = 'attr.rs parse layer'
-            cls = 'repeat' if 'repeat' in msg else ('unwrap' if 'unwrap' in msg or 'Result::unwrap' in msg else ('unreachable' if 'unreachable' in msg else 'panic'))
+            mcode = re.search(r'unreachable code: (\w+)', msg)
+            cls = 'repeat' if 'repeat' in msg else ('unwrap' if 'unwrap' in msg or 'Result::unwrap' in msg else (('unreachable:' + (mcode.group(1) if mcode else '?')) if 'unreachable' in msg else 'panic'))
             ctx.violation(site, '%s/%s' % (kind, cls), 'derive panics while parsing attribute arguments: %s' % msg[:200], {'input': text, 'native': msg})
         elif (out[0] == 'panic') != (n['status'] == 'panic'):
             ctx.inconclusive.append('ENCODING-MISMATCH (parse layer, panic): %s :: engine %s native %s %s' % (text, out[0], n['status'], n.get('msg')))
